@@ -12,7 +12,9 @@ from vf.core import Ctx, Machinery
 
 TOKENS = ['_http', '_', '_a-b', '_a--b', '_-a', '_a-', '_1234', '_' + 'a' * 15, '_' + 'a' * 16, '_a_b', '_sub', '',
           'inst', 'in st', '\x07x', 'x' * 63, 'x' * 64, '_tcp', '_udp', 'local', '_TCP', 'é' * 31 + 'a', 'é' * 32,
-          '_ab\n', '100%d', '{0}%s']      # (format directives: the name ends up inside an error message)
+          '_ab\n', '100%d', '{0}%s',
+          # characters that are not printable and not ASCII control characters either (RFC 6763 4.1.1 allows them in instance names)
+          'Living\xa0Room', 'a\u200db\u3000c', 'x\xady\x85\u202fz']      # (format directives: the name ends up inside an error message)
 PROTO = ['_tcp', '_udp', '_TCP']
 
 
@@ -71,7 +73,7 @@ def enum_names(ctx: Ctx, rng: random.Random) -> List[str]:
     return list(names)
 
 
-POOL = list('abzAZ09-_. =%{}') + ['%s', '%d', '%(x)s', '\x00', '\x1f', '\x7f', '\n', 'é', 'ß', '日', '😀', ' ']
+POOL = list('abzAZ09-_. =%{}') + ['%s', '%d', '%(x)s', '\x00', '\x1f', '\x7f', '\n', 'é', 'ß', '日', '😀', ' ', '\xa0', '\u200d', '\xad', '\x85', '\u3000']
 
 
 def gen_names(ctx: Ctx, rng: random.Random, n: int) -> List[str]:
